@@ -133,6 +133,7 @@ class World:
         self.evs: List[dict] = []
         self.calls: List[list] = []
         self.uuid: Dict[int, Any] = {}
+        self.listeners: Dict[int, Any] = {}
         self.tap_events: List[Any] = []
         # the harness' own tap sees every event (registered first, never removed); it is callback id 0 in the traces
         self.client.onevent(callback=self._tap)
@@ -151,18 +152,23 @@ class World:
                 "el": e.element.name if e.element else NONE, "old": old, "new": new}
 
     def make_cb(self, cb: dict):
+        """callbacks are bound methods of a small object (as in applications): `obj.on_event` is a fresh, equal object on every access"""
         w = self
-        if cb["coro"]:
-            async def f(e):
-                w.calls.append([cb["id"], w.ev_rec(e), True])
-        else:
-            def f(e):
-                w.calls.append([cb["id"], w.ev_rec(e), False])
-                if cb.get("rm") and cb["rm"] in w.uuid:
-                    w.client.rmonevent(uuid=w.uuid[cb["rm"]])      # removes a later-registered callback while events are dispatched
-                if cb["raises"]:
-                    raise RuntimeError("callback failed")
-        return f
+
+        class Listener:
+            if cb["coro"]:
+                async def on_event(self, e):
+                    w.calls.append([cb["id"], w.ev_rec(e), True])
+            else:
+                def on_event(self, e):
+                    w.calls.append([cb["id"], w.ev_rec(e), False])
+                    if cb.get("rm") and cb["rm"] in w.uuid:
+                        w.client.rmonevent(uuid=w.uuid[cb["rm"]])      # removes a later-registered callback while events are dispatched
+                    if cb["raises"]:
+                        raise RuntimeError("callback failed")
+        obj = Listener()
+        self.listeners[cb["id"]] = obj
+        return obj.on_event
 
     def project(self) -> dict:
         c = self.client
@@ -216,6 +222,9 @@ class World:
             elif o == "rmid":
                 if op["id"] in self.uuid:
                     self.client.rmonevent(uuid=self.uuid[op["id"]])
+            elif o == "rmcb":
+                if op["id"] in self.listeners:
+                    self.client.rmonevent(callback=self.listeners[op["id"]].on_event)      # removal by callback (an equal bound method)
             elif o == "rmcrit":
                 kw = {}
                 for k, field in (("device", "dev"), ("vector", "vec"), ("element", "el")):
@@ -299,7 +308,7 @@ def random_trace(r, length: int) -> List[dict]:
             elif x < 0.90 and live:
                 i = r.choice(live)
                 live.remove(i)
-                op = {"o": "rmid", "id": i}
+                op = {"o": r.choice(["rmid", "rmcb"]), "id": i}
             elif x < 0.93:
                 op = {"o": "rmcrit", "dev": r.choice([NONE, "A"]), "vec": r.choice([NONE, "V"]), "el": r.choice([NONE, "x"]), "ty": r.choice([NONE, "Value", "State"])}
                 if all(op[k] == NONE for k in ("dev", "vec", "el", "ty")):
